@@ -65,8 +65,9 @@
        (for every `conserves` operation, see C02)
                                              C04_conserves_NoDup
      the same for Clone, which is not a `conserves` operation (it creates new
-       objects): on a Clone panic every object made so far has been destroyed
-       by the Drop of the partial clone, or leaked in it, none twice
+       objects): on a Clone panic every object made so far (incl. the orphan key
+       of the failing pair) has been destroyed exactly once by the unwinding of
+       the partial clone, whose storage is then empty
                                              C04_clone_acct (panic clause),
                                              C04_clone_NoDup
      The three defects found in the original tree (F1 clone, F2 clear,
@@ -318,12 +319,14 @@ Print Assumptions C04_conserves_NoDup.
 
 (* Clone, ledger level (Proofs/Owned2.v).  clone_made E src n i s = the pairs the
    Clone callbacks return, in order, when cloning slots i, i+1, ... of src from
-   callback state s, up to the first Clone panic.  PANIC clause: the partial
-   clone has by then been dropped by the unwinding (finally_drop); self w' is
-   what is left in its storage.  Every object made so far has either been
-   destroyed by that Drop (d, appended to the destroyed-list) or still sits in a
-   slot of the dead storage (owned E (self w'): leaked, which happens only when
-   a Drop panicked during the unwinding) - as multisets, so none of them twice *)
+   callback state s, up to the first Clone panic; clone_orphans E src n i s = the
+   identities of the key K::clone had just made when the V::clone of the same
+   pair panicked (destroyed by unwinding; [] otherwise).  PANIC clause: the
+   partial clone has by then been destroyed by the unwinding (finally_drop runs
+   the panic-free unwind_map: a Drop that panics while unwinding would abort);
+   self w' is its dead storage: it holds NOTHING any more (owned = []), and the
+   destroyed-list grew by exactly the objects made so far, made ++ orphan, each
+   once (Permutation, multisets): nothing leaked, nothing destroyed twice *)
 Theorem C04_clone_acct :
   forall (K V Q T : Type) (E : env K V Q T) (src : map K V) (w : world K V T),
   WF src ->
@@ -332,24 +335,24 @@ Theorem C04_clone_acct :
   cap (self w) = cap src ->
   Tidy (self w) ->
   let made := flat_map (ids_pair E) (clone_made E src (len src) 0 (cb w)) in
+  let orphan := clone_orphans E src (len src) 0 (cb w) in
   wp (clone_from_src E src)
     (fun (_ : unit) (w' : world K V T) =>
-       WF (self w') /\
-       Tidy (self w') /\
-       len (self w') = len src /\
-       length (clone_made E src (len src) 0 (cb w)) = len src /\
-       dropped (log w') = dropped (log w) /\
-       Permutation (owned E (self w')) made)
+     WF (self w') /\
+     Tidy (self w') /\
+     len (self w') = len src /\
+     length (clone_made E src (len src) 0 (cb w)) = len src /\
+     dropped (log w') = dropped (log w) /\ Permutation (owned E (self w')) made)
     (fun w' : world K V T =>
-       exists d : list N,
-         dropped (log w') = dropped (log w) ++ d /\
-         Permutation (owned E (self w') ++ d) made)
-    w.
+     owned E (self w') = [] /\
+     (exists d : list N,
+        dropped (log w') = dropped (log w) ++ d /\ Permutation d (made ++ orphan))) w.
 Proof. exact (@clone_acct). Qed.
 Print Assumptions C04_clone_acct.
 
-(* ... hence, if the Clone callbacks return distinct new objects, no identity is
-   at two places among stored-in-the-clone / destroyed, on return AND on panic *)
+(* ... hence, if the Clone callbacks return distinct new objects (the orphan key
+   included), no identity is at two places among stored-in-the-clone /
+   destroyed, on return AND on panic *)
 Theorem C04_clone_NoDup :
   forall (K V Q T : Type) (E : env K V Q T) (src : map K V) (w : world K V T),
   WF src ->
@@ -357,11 +360,12 @@ Theorem C04_clone_NoDup :
   len (self w) = 0 ->
   cap (self w) = cap src ->
   Tidy (self w) ->
-  NoDup (flat_map (ids_pair E) (clone_made E src (len src) 0 (cb w)) ++ dropped (log w)) ->
+  NoDup
+    (flat_map (ids_pair E) (clone_made E src (len src) 0 (cb w)) ++
+     clone_orphans E src (len src) 0 (cb w) ++ dropped (log w)) ->
   wp (clone_from_src E src)
     (fun (_ : unit) (w' : world K V T) => NoDup (owned E (self w') ++ dropped (log w')))
-    (fun w' : world K V T => NoDup (owned E (self w') ++ dropped (log w')))
-    w.
+    (fun w' : world K V T => NoDup (owned E (self w') ++ dropped (log w'))) w.
 Proof. exact (@clone_NoDup). Qed.
 Print Assumptions C04_clone_NoDup.
 
@@ -461,14 +465,17 @@ Proof. vm_compute. repeat split; try reflexivity. discriminate. Qed.
 (* a case with an injected Clone panic (script fk = 2: clone call number 1, the
    first V::clone, panics), release build: two inserts into Map register 0, then
    register 1 := register 0 .clone().  The third observation starts with 2 (the
-   call unwound) and shows register 1 empty and well-formed; the teardown then
-   destroys ids 1 2 3 4 exactly once. *)
+   call unwound) and shows register 1 empty and well-formed; a panic observation
+   now ends with the events of the call: the orphan key 100000 (cloned just
+   before its value's Clone panicked) was destroyed by unwinding, and K::clone /
+   V::clone had been called on ids 1 and 2; the teardown then destroys ids
+   1 2 3 4 exactly once. *)
 Example C04_example_clone_panic :
   run_case false [[0; 0; 2; 1; 2; 2; 0; 0];
                   [10; 0; 1; 5; 2; 7]; [10; 0; 3; 6; 4; 8]; [60; 0; 1]]%N
   = [[1; 0; 7777; 1; 2; 1; 5; 2; 7; 8888; 8889];
      [1; 0; 7777; 2; 2; 1; 5; 2; 7; 3; 6; 4; 8; 8888; 8889];
-     [2; 7777; 0; 2; 8888; 8889];
+     [2; 7777; 0; 2; 8888; 100000; 8889; 1; 2];
      [1; 7777; 0; 2; 8888; 1; 2; 3; 4; 8889;  1; 7777; 0; 2; 8888; 8889;
       1; 7777; 0; 0; 8888; 8889;  1; 7777; 0; 0; 8888; 8889;
       8890; 1; 2; 0; 100001]]%N.
@@ -736,10 +743,12 @@ Print Assumptions C04_map_eq_frame.
 (* C04_clone_safe, C04_from_iter_safe, C04_s_from_iter_safe, C04_set_sub_safe
    have panic postcondition True.  What holds of the partially built container
    when Clone / the source iterator / == / Drop panics midway: it has been
-   dropped by unwinding (finally_drop), self w' is what is left in its dead
-   storage; the elements already cloned / stored were destroyed exactly once (d,
-   appended to the destroyed list) or leaked (lost; only when a Drop panicked as
-   well), none twice.  The source is a parameter of the computation (a shared
+   destroyed by unwinding (finally_drop = the panic-free unwind_map), self w' is
+   what is left in its dead storage; the elements already cloned / stored were
+   destroyed exactly once (d, appended to the destroyed list; for Clone also the
+   orphan key of the failing pair), `lost` is only what sat beyond len in a
+   non-tidy start state, none twice; from a tidy start nothing is lost and the
+   storage is empty (Clone).  The source is a parameter of the computation (a shared
    borrow): it cannot change.  inv_post w w' := WF (self w') /\ cap (self w') =
    cap (self w). *)
 Theorem C04_clone_safe_acct :
@@ -749,6 +758,7 @@ Theorem C04_clone_safe_acct :
   len (self w) = 0 ->
   cap (self w) = cap src ->
   let made := flat_map (ids_pair E) (clone_made E src (len src) 0 (cb w)) in
+  let orphan := clone_orphans E src (len src) 0 (cb w) in
   wp (clone_from_src E src)
     (fun (_ : unit) (w' : world K V T) =>
      (inv_post w w' /\ len (self w') = len src) /\
@@ -760,8 +770,8 @@ Theorem C04_clone_safe_acct :
     (fun w' : world K V T =>
      exists d lost : list N,
        dropped (log w') = dropped (log w) ++ d /\
-       Permutation (owned E (self w') ++ d ++ lost) (owned E (self w) ++ made) /\
-       (Tidy (self w) -> lost = [])) w.
+       Permutation (owned E (self w') ++ d ++ lost) (owned E (self w) ++ made ++ orphan) /\
+       (Tidy (self w) -> lost = [] /\ owned E (self w') = [])) w.
 Proof. exact (@clone_safe_acct). Qed.
 Print Assumptions C04_clone_safe_acct.
 
